@@ -188,6 +188,24 @@ Section Decode.
      anything else goes through CreateField, which refuses a second value.
      [d] is dec.depth on entry of decodeValue, [dp] is decode_present for this
      property at depth d + 1. *)
+  (* propSet.oneofConflict: the message that would hold the property's field, found
+     without creating anything, already has another member of the field's proto oneof *)
+  Fixpoint holder_lookup (path : list N) (m : msg) : option (msg * N) :=
+    match path with
+    | [] => None
+    | [n] => Some (m, n)
+    | n :: rest =>
+      match msg_get n m with
+      | Some (VMsg sub) => holder_lookup rest sub
+      | _ => None
+      end
+    end.
+  Definition oneof_conflict (p : property) (m : msg) : bool :=
+    match holder_lookup (p_path p) m with
+    | Some (h, _) => existsb (fun s => msg_has s h) (p_siblings p)
+    | None => false
+    end.
+
   Definition member_with (d : N) (dp : list token -> msg -> outcome (msg * list token))
              (p : property) (ts : list token) (m : msg) (seen : list bytes)
     : outcome (msg * list token * list bytes) :=
@@ -198,6 +216,7 @@ Section Decode.
     | TNull :: r => Ok (m, r, seen)
     | _ =>
       if mem_bytes (p_json p) seen then Err "field is already set"
+      else if oneof_conflict p m then Err "conflicts with another member of the same proto oneof"
       else obind (dp ts m) (fun r => Ok (fst r, snd r, p_json p :: seen))
     end.
 
@@ -448,10 +467,17 @@ Section Decode.
           | TStr key =>
             match item with
             | FScalar k =>
+              match map_get key acc with
+              | Some _ => Err "key already exists in map"
+              | None =>
               obind (next_token (snd kt)) (fun tr =>
                 if is_delim (fst tr) then Err "unexpected token, expected scalar"
                 else obind (map_set_go_value orc k key (fst tr) acc) (fun acc' => map_items f d item (snd tr) acc'))
+              end
             | FEnum ref =>
+              match map_get key acc with
+              | Some _ => Err "key already exists in map"
+              | None =>
               obind (next_token (snd kt)) (fun tr =>
                 match fst tr with
                 | TStr s =>
@@ -465,6 +491,7 @@ Section Decode.
                   end
                 | _ => Err "unexpected token, expected string"
                 end)
+              end
             | FObject ref =>
               match map_get key acc with
               | Some _ => Err "key already exists in map"
@@ -548,3 +575,7 @@ Definition model_enum_exact_match_first : bool := true.
 Definition model_date_validates_calendar : bool := true.
 (* decodeValue counts the nesting and refuses more than [max_nesting_depth] ([member_with]) *)
 Definition model_decode_value_depth_guard : bool := true.
+(* CreateField refuses a second member of a proto oneof ([oneof_conflict]); a repeated key in a map of
+   scalars / enums is refused like in a map of objects ([map_items]) *)
+Definition model_create_field_checks_oneof : bool := true.
+Definition model_leaf_map_dup_key_rejected : bool := true.
